@@ -189,9 +189,12 @@ def judge_helpers(ctx, cases, obs, payload_of):
         key = classify(segs, vals)
         expect_path = "".join(s[1] if s[0] == "lit" else vals[args.index(s[1])] for s in segs)
         want = dict(zip(args, vals)) if render(segs) != "*" else {}
+        nfail = len(ctx.failures)
         for rc in RECEIVERS:
             if not isinstance(obs.get(rc), list):
                 continue
+            if rc != "sync-class" and len(ctx.failures) > nfail:
+                break          # already exhibited for this input; a `:<receiver>` key means "only when reached that way"
             suffix = "" if rc == "sync-class" else ":" + rc
             for style in ("positional", "keyword"):
                 o = obs[rc][k][style]
@@ -634,7 +637,8 @@ def run(ctx):
     ctx.rule = ("structured patterns per the quantifier (1..6 variables, collection ids, separators - _ ~ ., "
                 "trailing **, singleton suffix, wildcard) x values over non-delimiter characters (short, one-character "
                 "and long runs, regex/format metacharacters, non-ASCII; the trailing ** value is a tail of 1..7 "
-                "non-empty segments, i.e. 0..6 '/'); helpers of the sync and of the async client; a case is "
+                "non-empty segments, i.e. 0..6 '/'); every helper (also the five common_* pairs, in every API) called on the sync and "
+                "async client CLASS and INSTANCE with positional and keyword arguments; a case is "
                 "distinct by (pattern, values); non-trivial = at least one variable and a successful build; visibility plans: "
                 "5..10 resources over three files (service file, same-package file, imported non-generated package) whose home is a "
                 "top-level message, a nested message or a file-level definition and that the service reaches as a field type or "
@@ -828,7 +832,7 @@ def replay(ctx, payload):
 
 
 CLAIM = dict(
-    text="Lean 4 proofs, all inputs, no size bound. (1) On a regex-engine model of the emitted re.match: parse_<r>_path(<r>_path(vals)) returns exactly the segments and rebuilding returns the path under the decidable hypothesis `Good` (values non-empty, newline-free, not containing the first character of the literal that follows; the last variable is unrestricted, also before a singleton suffix); `roundtrip_in_quantifier` restates it in the property's own words (pattern shape + values free of the pattern's delimiters) and `common_resources_roundtrip` for the five bridged common patterns; wildcard and non-match theorems; counterexample theorems for every point the hypotheses exclude (empty value, newline, delimiter inside a value, adjacent variables), each run on the real code. (2) On a model of Service.resource_messages / recursive_field_types / Proto.resource_messages / visible_resources: the set of resources that get helpers is exactly the declaratively visible set (`service_resources_exactly_visible`: reachability through message-typed fields at any depth, cycles, LRO response types, references by type or child_type into the API-wide table), every visible resource has its own helper when helper names are distinct (`helper_for_every_visible_resource`), with counterexample theorems for the two name collisions and a regression theorem for a nested resource that is only named (fixed in 109fab8). Tie: T1 bridge of PATH_ARG_RE/common resources, T2 AST equality between the model regex and CPython's parse of the real path_regex_str, T2 Service.resource_messages vs the model on multi-file APIs, T2 beyond the quantifier (model = real regex where the theorems' hypotheses fail), T3 the static helpers and the helper-name set of the imported sync and async clients vs the model, plus a model-independent oracle.",
+    text="Lean 4 proofs, all inputs, no size bound. (1) On a regex-engine model of the emitted re.match: parse_<r>_path(<r>_path(vals)) returns exactly the segments and rebuilding returns the path under the decidable hypothesis `Good` (values non-empty, newline-free, not containing the first character of the literal that follows; the last variable is unrestricted, also before a singleton suffix); `roundtrip_in_quantifier` restates it in the property's own words (pattern shape + values free of the pattern's delimiters) and `common_resources_roundtrip` for the five bridged common patterns; wildcard and non-match theorems; counterexample theorems for every point the hypotheses exclude (empty value, newline, delimiter inside a value, adjacent variables), each run on the real code. (2) On a model of Service.resource_messages / recursive_field_types / Proto.resource_messages / visible_resources: the set of resources that get helpers is exactly the declaratively visible set (`service_resources_exactly_visible`: reachability through message-typed fields at any depth, cycles, LRO response types, references by type or child_type into the API-wide table), every visible resource has its own helper when helper names are distinct (`helper_for_every_visible_resource`), with counterexample theorems for the two name collisions and a regression theorem for a nested resource that is only named (fixed in 109fab8). Tie: T1 bridge of PATH_ARG_RE/common resources, T2 AST equality between the model regex and CPython's parse of the real path_regex_str, T2 Service.resource_messages vs the model on multi-file APIs, T2 beyond the quantifier (model = real regex where the theorems' hypotheses fail), T3 the helpers and the helper-name set of the imported sync and async clients vs the model, plus a model-independent oracle applied to every helper (resource and common_*) reached four ways — sync class, sync instance, async class, async instance — with positional and with keyword arguments.",
     technique='Lean 4 theorems (induction on pattern segments over a CPS backtracking-regex model; work-list closure = reachability with a potential-function fuel bound) + translator bridge + differential T2/T3',
     design='7.19',
     note='Hypotheses of parse_build_partial exclude empty and newline-containing values: both fail on the real code and are listed in known_findings.json. helper_for_every_visible_resource needs distinct helper names: both collisions are listed findings (known_findings.json, findings/C19.json).',
